@@ -25,6 +25,7 @@ import (
 
 	"github.com/emersion/go-imap/v2"
 	"github.com/emersion/go-imap/v2/imapclient"
+	"github.com/emersion/go-sasl"
 
 	"verif/harness/vh"
 )
@@ -350,6 +351,29 @@ func (w *world) submit(kind, arg string) error {
 	case "CREATE":
 		cmd := w.cl.Create("A", nil)
 		go func() { fin(statusOf(cmd.Wait()), accT{}) }()
+	case "DELETE":
+		cmd := w.cl.Delete("A")
+		go func() { fin(statusOf(cmd.Wait()), accT{}) }()
+	case "RENAME":
+		cmd := w.cl.Rename("A", "B")
+		go func() { fin(statusOf(cmd.Wait()), accT{}) }()
+	case "SUBSCRIBE":
+		cmd := w.cl.Subscribe("A")
+		go func() { fin(statusOf(cmd.Wait()), accT{}) }()
+	case "UNSUBSCRIBE":
+		cmd := w.cl.Unsubscribe("A")
+		go func() { fin(statusOf(cmd.Wait()), accT{}) }()
+	case "SETQUOTA":
+		cmd := w.cl.SetQuota("A", map[imap.QuotaResourceType]int64{imap.QuotaResourceStorage: 512})
+		go func() { fin(statusOf(cmd.Wait()), accT{}) }()
+	case "SETMETADATA":
+		v := []byte("a comment")
+		cmd := w.cl.SetMetadata("A", map[string]*[]byte{"/private/comment": &v})
+		go func() { fin(statusOf(cmd.Wait()), accT{}) }()
+	case "AUTHENTICATE":
+		// Authenticate blocks until the exchange is over: the command line, then (after the server's continuation
+		// request) the credentials, then the completion
+		go func() { fin(statusOf(w.cl.Authenticate(sasl.NewPlainClient("", "u", "p"))), accT{}) }()
 	case "STORE":
 		var set imap.SeqSet
 		set.AddRange(1, 0)
@@ -555,6 +579,9 @@ func (w *world) submit(kind, arg string) error {
 		return fmt.Errorf("unknown kind %s", kind)
 	}
 	tag, text, err := w.readCmd()
+	if err == nil && kind == "AUTHENTICATE" && text != "AUTHENTICATE PLAIN" {
+		err = fmt.Errorf("AUTHENTICATE with an initial response although SASL-IR is not advertised: %q", text)
+	}
 	if err == nil && kind == "APPEND" {
 		if w.syncLit {
 			if !strings.HasSuffix(text, "{5}") {
@@ -669,6 +696,18 @@ func (w *world) step(ev *event) error {
 	case "Enabled":
 		w.write("* ENABLED UTF8=ACCEPT")
 	case "Cont":
+		if ev.N1 >= 1 && ev.N1 <= len(w.kinds) && w.kinds[ev.N1-1] == "AUTHENTICATE" {
+			w.write("+ ")
+			w.srv.SetReadDeadline(time.Now().Add(3 * time.Second))
+			line, err := w.br.ReadString('\n')
+			if err != nil {
+				return fmt.Errorf("reading the credentials after the continuation request: %v", err)
+			}
+			if strings.TrimRight(line, "\r\n") != "AHUAcA==" {
+				return fmt.Errorf("after the continuation request the client sent %q instead of the PLAIN credentials", line)
+			}
+			return nil
+		}
 		if ev.N1 >= 1 && ev.N1 <= len(w.kinds) && w.kinds[ev.N1-1] == "APPEND" {
 			w.write("+ go ahead")
 			buf := make([]byte, 7)
@@ -719,7 +758,7 @@ func (w *world) step(ev *event) error {
 		text := "done"
 		if ev.S1 == "OK" {
 			switch w.kinds[id-1] {
-			case "LOGIN", "UNAUTH":
+			case "LOGIN", "UNAUTH", "AUTHENTICATE":
 				text = "[CAPABILITY " + w.caps + "] done"
 			case "COPY":
 				if ev.N2 != 0 {
